@@ -127,7 +127,8 @@ fn run_case(f: &[String]) -> String {
     cmd.args(all_args.iter().take(nargs)).env_clear().current_dir(&app).stdin(Stdio::null()).stdout(Stdio::null()).stderr(Stdio::null());
     let names = ["CNB_BUILDPACK_DIR", "CNB_TARGET_OS", "CNB_TARGET_ARCH", "CNB_TARGET_ARCH_VARIANT", "CNB_TARGET_DISTRO_NAME", "CNB_TARGET_DISTRO_VERSION"];
     let values = [s(&bp), "linux".into(), "amd64".into(), "v3".into(), "ubuntu".into(), "24.04".into()];
-    for k in 0..6 { if vars[k] == b'1' { cmd.env(names[k], &values[k]); } }
+    // '1' = set to a usual value, 'e' = set to the empty string (still present), '0' = unset
+    for k in 0..6 { if vars[k] == b'1' { cmd.env(names[k], &values[k]); } else if vars[k] == b'e' && k > 0 { cmd.env(names[k], ""); } }
     cmd.env("TBP_OUT", &out).env("TBP_DETECT", dbeh).env("TBP_BUILD", bbeh);
     if c[0] == "gone" {
         // the child removes its own working directory just before exec: getcwd fails in the runtime
@@ -221,6 +222,10 @@ fn generate(tier: &str, seed: u64, emit: &mut dyn FnMut(Case)) {
     for dbeh in DBEHS { for pp in ["a", "f", "d"] { for vars in ["111111", "111011"] { for plat in ["ok", "noenv", "bad"] { for descr in ["api:0.10:ok", "api:0.10:bad"] {
         emit(mk("detect", "detect", 2, descr, vars, &format!("ok/{plat}/ok"), dbeh, "err", &format!("{pp}/a/a/aaa/aaa"), "sym"));
     } } } } }
+    // B1'. target variables that are present but empty are still present
+    for exe in ["detect", "build"] { for vars in ["1e1111", "11e111", "111e11", "1111e1", "11111e", "1eeeee", "1e0111", "10e111"] {
+        emit(mk("emptyvar", exe, right_args(exe), "api:0.10:ok", vars, "ok/ok/ok", "passplan", "ok:launch,estore", "f/f/v/aaa/aaa", "sym"));
+    } }
     // B2. all gates open: build behaviours (launch and store each absent / normal / empty / other-shape, SBOM sets with
     //     normal, empty and binary data, error, layer error) x pre-existing outputs
     let sb_pre: Vec<&str> = if thorough { vec!["aaa", "aaf", "afa", "aff", "faa", "faf", "ffa", "fff"] } else { vec!["aaa", "fff"] };
